@@ -317,14 +317,7 @@ void sets_case(i64 a_, i64 b_)
   chk(u == mk(a | b), "container::set_union|result", [&] { return "set_union of masks " + std::to_string(a) + "," + std::to_string(b) + " = " + show(ints(u)); });
   chk(n == mk(a & b), "container::set_intersection|result", [&] { return "set_intersection of masks " + std::to_string(a) + "," + std::to_string(b) + " = " + show(ints(n)); });
   chk(d == mk(a & ~b), "container::set_difference|result", [&] { return "set_difference of masks " + std::to_string(a) + "," + std::to_string(b) + " = " + show(ints(d)); });
-  // maps as "sets" of pairs (documented for associative containers): key -> key*10
-  auto mkm = [](int mask) {
-    std::map<int, int> m;
-    for (int i = 0; i < 5; ++i)
-      if (mask & (1 << i)) m[i] = i * 10;
-    return m;
-  };
-  chk(fcppt::container::set_union(mkm(a), mkm(b)) == mkm(a | b) && fcppt::container::set_intersection(mkm(a), mkm(b)) == mkm(a & b) && fcppt::container::set_difference(mkm(a), mkm(b)) == mkm(a & ~b), "container::set_union|result|map", [&] { return "set operations on maps of masks " + std::to_string(a) + "," + std::to_string(b) + " wrong"; });
+  // (std::map operands: c16_container_maps.cpp, a translation unit of its own)
 }
 Reg const r_sets{
     C16_SEC("cont_set_operations"), Kind::exhaustive, "set_union / set_intersection / set_difference: the sets overlap and each has an element the other lacks",
